@@ -29,7 +29,64 @@ func isMutexType(t types.Type) bool {
 func mutexOp(cc *ssa.CallCommon) (op string, root ssa.Value, key string, ok bool) {
 	f := calleeFunc(cc)
 	if f == nil {
-		return
+		// a call through a function value that is the bound method mu.Unlock / mu.RUnlock (what a "lock and hand back
+		// the unlock" helper returns): `unlock := f.mu.RUnlock … defer unlock()`.  The value may be joined with nil
+		// (the helper's failure return); calling nil panics, it does not leave quietly, so it is not another outcome.
+		if cc.IsInvoke() {
+			return
+		}
+		var bound *ssa.MakeClosure
+		var walk func(v ssa.Value, d int) bool
+		walk = func(v ssa.Value, d int) bool {
+			if d > 4 {
+				return false
+			}
+			switch x := v.(type) {
+			case *ssa.MakeClosure:
+				if bound != nil && bound != x {
+					return false
+				}
+				bound = x
+				return true
+			case *ssa.Const:
+				return x.Value == nil
+			case *ssa.Phi:
+				for _, e := range x.Edges {
+					if !walk(e, d+1) {
+						return false
+					}
+				}
+				return true
+			case *ssa.Extract:
+				return false
+			}
+			return false
+		}
+		if !walk(cc.Value, 0) || bound == nil || len(bound.Bindings) != 1 {
+			return
+		}
+		bf, _ := bound.Fn.(*ssa.Function)
+		if bf == nil || bf.Synthetic == "" || bf.Object() == nil {
+			return
+		}
+		mf, _ := bf.Object().(*types.Func)
+		if mf == nil {
+			return
+		}
+		switch mf.Name() {
+		case "Lock", "RLock", "Unlock", "RUnlock":
+		default:
+			return
+		}
+		sig := mf.Type().(*types.Signature)
+		if sig.Recv() == nil || !isMutexType(sig.Recv().Type()) {
+			return
+		}
+		broot, bpath := accessPath(bound.Bindings[0])
+		if broot == nil {
+			return
+		}
+		return mf.Name(), broot, typeName(broot.Type()) + "." + bpath, true
 	}
 	switch f.Name() {
 	case "Lock", "RLock", "Unlock", "RUnlock":
